@@ -219,3 +219,49 @@ def check_start_benchmark(schedule, hosts=None):
         except (IndexError, KeyError) as e:
             return ("progress-walk", f"step {step} of {d.number_of_steps}: update_progress_message raised {type(e).__name__}: {e}")
     return None
+
+
+def check_partitioning(schedule):
+    """where the client indices are *used*: the real driver.schedule_for asks the task's parameter source for partition (k, n) -- over all
+    clients the real Allocator gives a task, k must run through 0..task.clients-1 exactly once and n must be the task's own client count"""
+    from esrally.driver import driver, runner
+
+    if not _REG.get("runners"):
+        runner.register_default_runners()
+        _REG["runners"] = True
+    calls = {}
+
+    class Source:
+        def __init__(self, task):
+            self.task = task
+            self.infinite = True
+            self.percent_completed = None
+
+        def partition(self, index, total):
+            calls.setdefault(self.task.name, []).append((index, total))
+            return self
+
+        def params(self):
+            return {}
+
+    try:
+        matrix = driver.Allocator(schedule).allocations
+    except Exception:  # noqa -- reported by check_allocator
+        return None
+    for row in matrix:
+        for ta in row:
+            if isinstance(ta, driver.TaskAllocation):
+                try:
+                    driver.schedule_for(ta, Source(ta.task))
+                except (AttributeError, TypeError, KeyError):
+                    return "skipped"
+    for el in schedule:
+        for t in el:
+            got = sorted(calls.get(t.name, []))
+            want = [(k, t.clients) for k in range(t.clients)]
+            if got != want:
+                return ("parameter-source-partitions", f"task {t.name} with {t.clients} clients: partitions requested {got}, expected {want}")
+    return None
+
+
+_REG = {}
